@@ -136,7 +136,11 @@ pub struct DictBuilder<D> {
 impl DictBuilder<NoDic> {
     /// Creates a new builder for system dictionary
     pub fn new_system() -> Self {
-        Self::new_empty()
+        let mut bldr = Self::new_empty();
+        // until a connection matrix is read there are no valid connection ids:
+        // compiling without one must fail validation instead of emitting a 0x0 matrix
+        bldr.lexicon.set_max_conn_sizes(0, 0);
+        bldr
     }
 }
 
